@@ -28,7 +28,7 @@ notes = {
  'C16': "YAML/JSON decode equivalence is NOT claimed (reflection-driven decoder, outside the executor's reach); trusted: go/ssa, time.ParseDuration bridged natively on concrete strings, z3",
 }
 checks = []
-for p in sorted(reg):
+for p in sorted(k for k in reg if k.startswith('C')):
     t, ref = texts[p]
     spec = reg[p]
     note = "bounded: " + spec.get('bounds','') + ". trusted base: go/ssa construction, the engine's environment model (time, resource.Quantity int64 form, logging/metrics as no-ops, fmt/strconv/strings bridged natively on concrete values, select over modelled timers), simulated AWS/Kubernetes fakes in /verif/harness, z3 5.1.0; float64 over-approximated (sat answers replayed natively before being reported)."
@@ -56,7 +56,7 @@ m = {
   "source_commits": [],
   "add_only": True
  },
- "engines": [{"name": "gosymex", "path": "/verif/engine", "serves_properties": sorted(reg), "kind_free_text": "symbolic executor for Go SSA (fork of golang.org/x/tools/go/ssa/interp v0.29.0) with SMT back end (z3 5.1.0 via one long-lived process per worker, push/pop); counterexamples are replayed against the natively compiled real code before being reported"}],
+ "engines": [{"name": "gosymex", "path": "/verif/engine", "serves_properties": sorted(k for k in reg if k.startswith("C")), "kind_free_text": "symbolic executor for Go SSA (fork of golang.org/x/tools/go/ssa/interp v0.29.0) with SMT back end (z3 5.1.0 via one long-lived process per worker, push/pop); counterexamples are replayed against the natively compiled real code before being reported"}],
  "checks": checks,
  "not_applicable": [],
  "notes": "Every property is decided by the same technique (solver-based checking of the real code). Parts of statements that the technique cannot reach are listed per property in level_note / evidence outside_claim (notably C16's YAML/JSON decode equivalence). Genuine defects found: see /verif/known_findings.json and DESIGN.md §4."
